@@ -42,6 +42,50 @@ partial def pSpaceX : P (SpaceX Float)
   | "cforest" :: r => do let (s, r) ← pSpaceX r; pure (.cforest s, r)
   | r => do let (s, r) ← pSpace r; pure (.base s, r)
 
+/-! ### histories: the space is changed after construction; the model is recomputed from the CURRENT bounds/weights -/
+
+/-- apply `f` to the node at `path` (compound: i-th component; wrapper: 0 = the wrapped space) -/
+partial def modAt (f : Space Float → Option (Space Float)) : List Nat → Space Float → Option (Space Float)
+  | [], s => f s
+  | 0 :: p, .wrap s => (modAt f p s).map .wrap
+  | i :: p, s => modComp f i p s
+where
+  modComp (f : Space Float → Option (Space Float)) : Nat → List Nat → Space Float → Option (Space Float)
+    | 0, p, .ccons w h t => (modAt f p h).map (fun h' => .ccons w h' t)
+    | i + 1, p, .ccons w h t => (modComp f i p t).map (fun t' => .ccons w h t')
+    | _, _, _ => none
+
+def setBoundsF (lo hi : List Float) : Space Float → Option (Space Float)
+  | .rv l _ => if l.length == lo.length && lo.length == hi.length then some (.rv lo hi) else none
+  | .time _ _ _ =>
+    match lo, hi with
+    | [a], [b] => some (.time true a b)
+    | _, _ => none
+  | _ => none
+
+def setWeightF (idx : Nat) (w : Float) : Space Float → Option (Space Float)
+  | .ccons w0 h t =>
+    match idx with
+    | 0 => some (.ccons w h t)
+    | i + 1 => (setWeightF i w t).map (fun t' => .ccons w0 h t')
+  | _ => none
+
+/-- the same on the extended spaces: constrained / cforest: 0 = inner; spacetime: 0 = space, 1 = time -/
+partial def modAtX (f : Space Float → Option (Space Float)) : List Nat → SpaceX Float → Option (SpaceX Float)
+  | p, .base s => (modAt f p s).map .base
+  | 0 :: p, .constrained amb => (modAt f p amb).map .constrained
+  | 0 :: p, .cforest s => (modAtX f p s).map .cforest
+  | 0 :: p, .spacetime vmax tw b lo hi inner => (modAt f p inner).map (fun i' => .spacetime vmax tw b lo hi i')
+  | [1], .spacetime vmax tw b lo hi inner =>
+    match f (.time b lo hi) with
+    | some (.time b' lo' hi') => some (.spacetime vmax tw b' lo' hi' inner)
+    | _ => none
+  | _, _ => none
+
+/-- `k i1 … ik rest` -/
+def pPath : P (List Nat)
+  | ts => (takeCounted ts).bind fun (xs, r) => (parseNats? xs).map (·, r)
+
 def init (ts : List String) : Option St :=
   match ts with
   | ["spacedist"] => some ⟨none⟩
@@ -102,6 +146,36 @@ def step (st : St) (ts : List String) : St × String :=
         match pState sp rest with
         | some (a, []) => if sp.wellTyped a then (st, "in " ++ b2s (inBoundsX sx a)) else (st, "bad-op")
         | _ => (st, "bad-op")
+      | "setup" => if rest.isEmpty then (st, "ok") else (st, "bad-op")
+      | "setbounds" =>
+        match pPath rest with
+        | some (path, r) =>
+          match pNat r with
+          | some (n, r) =>
+            match pFloats n r with
+            | some (lo, r) =>
+              match pFloats n r with
+              | some (hi, []) =>
+                match modAtX (setBoundsF lo hi) path sx with
+                | some sx' => (⟨some sx'⟩, "ok")
+                | none => (st, "bad-op")
+              | _ => (st, "bad-op")
+            | none => (st, "bad-op")
+          | none => (st, "bad-op")
+        | none => (st, "bad-op")
+      | "setweight" | "setweightn" =>
+        match pPath rest with
+        | some (path, r) =>
+          match pNat r with
+          | some (idx, r) =>
+            match pFloat r with
+            | some (w, []) =>
+              match modAtX (setWeightF idx w) path sx with
+              | some sx' => (⟨some sx'⟩, "ok")
+              | none => (st, "bad-op")
+            | _ => (st, "bad-op")
+          | none => (st, "bad-op")
+        | none => (st, "bad-op")
       | "extent" => if rest.isEmpty then (st, "ext " ++ optBits (extentX sx)) else (st, "bad-op")
       | "claims" =>
         if rest.isEmpty then
